@@ -89,6 +89,22 @@ Theorem C17_genesis_erc20_only_with_positive_supply : forall caddr n sup g s d a
 Proof. exact genesis_erc20_needs_positive_supply. Qed.
 Print Assumptions C17_genesis_erc20_only_with_positive_supply.
 
+(* genesis registers exactly what its flags say: the ERC-20 contract of the bond denomination (at the module account's
+   next address) iff DeployErc20Native, the staking contract iff DeployStakingContract, the bech32 contract always *)
+Theorem C17_genesis_flags_exact : forall caddr n sup g s, init_genesis caddr (empty_state n sup) g = Some s ->
+  keys (metas s) = (if g_erc20_native g then [caddr n] else []) ++ (if g_staking g then [STAKING_ADDR] else []) ++ [BECH32_ADDR]
+  /\ mseq s = n + (if g_erc20_native g then 1 else 0)
+  /\ prm s = g_params g
+  /\ didx s = (if g_erc20_native g then [(g_bond_denom g, caddr n)] else []).
+Proof. exact genesis_contents. Qed.
+Print Assumptions C17_genesis_flags_exact.
+
+(* a refused or panicking operation leaves no trace in the registry *)
+Theorem C17_refused_operation_leaves_no_trace : forall caddr s o,
+  (forall a, snd (step caddr s o) <> ROk a) -> fst (step caddr s o) = s.
+Proof. exact refused_no_trace. Qed.
+Print Assumptions C17_refused_operation_leaves_no_trace.
+
 (* messages and the Disabled toggle change nothing of a record but the flag; records never disappear *)
 Theorem C17_record_stable : forall caddr s o a m, msg_op o -> lookup (metas s) a = Some m ->
   exists m', lookup (metas (fst (step caddr s o))) a = Some m' /\ same_but_flag m m'.
